@@ -23,7 +23,7 @@ RULE = ('cases = generated DSG spec x encoder x an operation history of 2-8 step
         'alphabet on 4 fixed specs; other-process part: the decode table of a spec is recomputed in child processes '
         'with PYTHONHASHSEED in {1, 2, 12345} and another node-id salt; one evaluation = one history step; non-trivial = '
         'history has a fix...free pair or an instance mutation followed by a decode; distinct by sha1(case)')
-BUDGET = {'quick': 24, 'thorough': 500}
+BUDGET = {'quick': 24, 'thorough': 1000}
 OPS = ['decode', 'decode', 'decode_nocreate', 'enumerate', 'stats', 'n_valid', 'fix', 'fix', 'free', 'mutate', 'pickle']
 N_SINGLE = 12
 ALPHABET = ['decode', 'decode_nocreate', 'enumerate', 'fix', 'free', 'mutate', 'pickle']
